@@ -266,8 +266,45 @@ def known_findings(prop: str) -> list[dict]:
     return [f for f in data.get("findings", []) if f["property"] == prop]
 
 
+FINGERPRINTS = VERIF / "harness" / "source_fingerprints.json"
+BUDGET_BOOST = 3
+
+
+def anchored_files(prop: str) -> list[str]:
+    for line in (VERIF / "properties.jsonl").read_text().splitlines():
+        if line.strip():
+            p = json.loads(line)
+            if p["id"] == prop:
+                return sorted(p["anchors"]["files"])
+    return []
+
+
+def file_digest(rel: str) -> str:
+    f = REPO / rel
+    return hashlib.sha256(f.read_bytes()).hexdigest() if f.exists() else "missing"
+
+
+def source_changed(prop: str) -> list[str]:
+    """the files the property is anchored in that differ from the tree the machinery was last validated against
+    (harness/source_fingerprints.json, rewritten by harness/update_fingerprints.py after every commit to /repo)"""
+    try:
+        known = json.loads(FINGERPRINTS.read_text())
+    except Exception:  # noqa: BLE001
+        return ["<no fingerprints>"]
+    return [f for f in anchored_files(prop) if known.get(f) != file_digest(f)]
+
+
 class Run:
     """Collects what one check run explored and decides the verdict."""
+
+    def budget(self, quick: int, thorough: int) -> int:
+        """number of generated cases: fixed per tier; the quick tier explores BUDGET_BOOST times as many when the
+        source the property is anchored in is not the source the machinery was last validated against"""
+        if self.tier != "quick":
+            return thorough
+        changed = source_changed(self.prop)
+        self.extra["source_changed_since_validation"] = changed
+        return quick * (BUDGET_BOOST if changed else 1)
 
     def __init__(self, prop: str, tier: str, seed: int):
         self.prop, self.tier, self.seed = prop, tier, seed
